@@ -2,12 +2,18 @@ package c04
 
 import (
 	"testing"
+	"time"
 
 	"verif/harness/inproc"
 )
 
 // FuzzRtmpServerSession feeds arbitrary bytes (after an optional valid prefix
 // selected by the first byte) to lal's RTMP accept handler.
+//
+// go's fuzzing engine kills a worker whose target runs for 10 s ("deadlocked!") and reports the input as a crasher.
+// lal zeroes up to 16 MiB per lying chunk header, so the input size is bounded (16 KiB) and a session that is still
+// RUNNING after 6 s on a loaded machine is abandoned (the instance is leaked, nothing is reported); a session that is
+// PARKED after the peer's EOF is the violation.
 func FuzzRtmpServerSession(f *testing.F) {
 	for _, st := range []string{"raw", "connected", "publishing", "playing"} {
 		c := Case{Handshake: "simple", Stage: st, Stream: "s1", Trunc: -1}
@@ -27,18 +33,25 @@ func FuzzRtmpServerSession(f *testing.F) {
 		render(Case{Handshake: "simple", Stage: "publishing", Stream: "f", Trunc: -1}),
 		render(Case{Handshake: "simple", Stage: "playing", Stream: "f", Trunc: -1})}
 	f.Fuzz(func(t *testing.T, sel byte, data []byte) {
-		if len(data) > 1<<16 {
+		if len(data) > 1<<14 {
 			return
 		}
 		s := inproc.New(inproc.Config{RtmpGopNum: 1, FlvGopNum: 1, TsGopNum: 1})
-		defer s.Close()
+		closeIt := true
+		defer func() {
+			if closeIt {
+				s.Close()
+			}
+		}()
 		conn := s.RtmpConn()
 		wire := append(append([]byte(nil), prefixes[int(sel)%len(prefixes)]...), data...)
 		_, _ = conn.Write(wire)
 		conn.CloseWrite()
-		// a session that is parked after EOF is a violation; one that is still running on a loaded machine is
-		// abandoned (the fuzz engine counts the execution, nothing is reported)
-		v, _ := waitSessionEnd(s, conn)
+		v, ended := waitSessionEndWithin(s, conn, 6*time.Second, 1, time.Second)
+		if v == nil && !ended {
+			closeIt = false // still running: tearing the instance down would wait for it
+			return
+		}
 		if v == nil {
 			v = s.PanicViolation()
 		}
